@@ -1,6 +1,7 @@
 CONSTANTS
   MaxTasks = 3
   PanicKinds = {"string", "nilmap"}
+  Modes = {"group", "inner", "log"}
 INIT Init
 NEXT Next
 INVARIANTS TypeOK WaitOutcome LogOutcome Progress AllFinish
